@@ -60,7 +60,7 @@ LEVEL_NOTE = (
     "element by its repr); sampling, not exhaustive; the mutated forms are built with low-level ufl.classes constructors"
 )
 RULE = (
-    "cases 0..len(BATTERY)-1: hand-written base form + single-point variants per mechanism; further cases: random form "
+    "cases 0,16,32,..: the hand-written groups (base form + single-point variants per mechanism); all other cases: random form "
     "from vf.gen (seeded), rebuilt once, ~35 single-point mutants; a pair is distinct and non-trivial when the two "
     "loose canon digests differ (digest pair counted once)"
 )
@@ -75,8 +75,8 @@ ASSUMPTIONS = [
     "a rebuilt recipe whose tree differs from the first build only by the order of operands (UFL sorts operands by "
     "counts) is not an 'equal form'; such pairs are counted rebuilt_operand_order_differs and left to C12",
 ]
-BUDGET = {"quick": 70, "thorough": 420}
-NCASES = {"quick": 2100, "thorough": 30100}
+BUDGET = {"quick": 75, "thorough": 420}
+NCASES = {"quick": 1800, "thorough": 30000}
 WORKERS = {"quick": 16, "thorough": 16}
 EVAL_COUNTER = "pairs"
 
@@ -96,22 +96,36 @@ ALL_RANDOM_KINDS = (
 )
 
 FLOORS = {
-    "quick": {"pairs": 30000, "pairs_different_canon": 25000, "rebuilt_equal_checked": 1200, "pairs_equal_canon": 1500,
-              "battery_pairs": 150, "bucket_merges": 1, "bucket_forms": 30000},
-    "thorough": {"pairs": 400000, "pairs_different_canon": 350000, "rebuilt_equal_checked": 18000, "pairs_equal_canon": 20000,
-                 "battery_pairs": 150, "bucket_merges": 1, "bucket_forms": 400000},
+    "quick": {"pairs": 30000, "pairs_different_canon": 27000, "rebuilt_equal_checked": 700, "pairs_equal_canon": 1400,
+              "battery_pairs": 300, "bucket_merges": 1, "bucket_forms": 28000},
+    "thorough": {"pairs": 500000, "pairs_different_canon": 450000, "rebuilt_equal_checked": 12000, "pairs_equal_canon": 24000,
+                 "battery_pairs": 300, "bucket_merges": 1, "bucket_forms": 450000},
 }
 COVER_FLOORS = {"quick": {"kinds_different": ALL_RANDOM_KINDS[:-1]}, "thorough": {"kinds_different": ALL_RANDOM_KINDS[:-1]}}
 
 # --------------------------------------------------------------------------- per-worker state
 
-STORE = {}  # signature -> {loose digest: [case tag, kind]}
+STORE = {}  # signature -> {loose digest: [case tag, kind, explained by a reported pair]}
 INFO = {}  # id(form) -> (form, FormInfo)
+REPORTED = {}  # violation key -> number of reports of this worker
+MAX_REPORTS_PER_KEY = 3  # the runner keeps 200 violations per worker: never let one mechanism crowd out another
+BATTERY_STRIDE = 16  # battery group g is case g*16: with 16 workers all of them run first, in worker 0
+
+
+def report(ctx, key, desc, detail):
+    n = REPORTED.get(key, 0)
+    REPORTED[key] = n + 1
+    if n < MAX_REPORTS_PER_KEY:
+        ctx.violation(key, desc, detail)
+    else:
+        ctx.count("violations_beyond_report_cap")
+        ctx.count("violations_raw")
 
 
 def setup(ctx):
     STORE.clear()
     INFO.clear()
+    REPORTED.clear()
 
 
 def info(ctx, F, tag, kind):
@@ -144,7 +158,8 @@ def check_pair(ctx, kind, sub, A, B, tag, expect_different=False):
         ctx.covered("kinds_equal", kind)
         if a.sig != b.sig:
             cause = "zero-with-free-indices" if has_zero_with_free_indices(A) else name
-            ctx.violation(
+            report(
+                ctx,
                 f"C11/equal-forms-different-signature/{cause}",
                 f"two forms with identical canon (kind {name}) have different signatures",
                 {"kind": name, "sigA": a.sig[:16], "sigB": b.sig[:16], "formA": _short(A), "formB": _short(B)},
@@ -164,11 +179,14 @@ def check_pair(ctx, kind, sub, A, B, tag, expect_different=False):
         ctx.count("collisions")
         for x in (a, b):  # remember that this bucket member is explained by a reported pair
             STORE[x.sig[:28]][x.loose[:16]][2] = 1
-        ctx.violation(
+        report(
+            ctx,
             f"C11/collision/{name}",
             f"two forms that differ in one point ({name}) have the same signature",
             {"kind": name, "signature": a.sig[:16], "formA": _short(A), "formB": _short(B)},
         )
+    elif kind not in ("metadata-set", "bfo-attached"):
+        ctx.sample({"kind": name, "formA": _short(A, 300), "formB": _short(B, 300), "canons": "different", "signatures": "different"}, limit=4)
     return "different"
 
 
@@ -378,7 +396,7 @@ def _grp_index():
 
     base = mk(lambda b, i, j: b.A[i, j] * b.Bt[i, j])
     return "index", base, [
-        ("rebuilt", mk(lambda b, i, j: b.A[j, i] * b.Bt[j, i])),
+        ("index-pattern", mk(lambda b, i, j: b.A[j, i] * b.Bt[j, i])),
         ("index-pattern", mk(lambda b, i, j: b.A[i, j] * b.Bt[j, i])),
         ("index-pattern", mk(lambda b, i, j: b.A[i, i] * b.Bt[j, j])),
         ("index-pattern", mk(lambda b, i, j: ufl.as_tensor(b.A[i, j], (j, i))[i, j] * b.Bt[i, j])),
@@ -680,7 +698,7 @@ def _grp_terminals():
         ("function-space-label", mk(lambda b: b.f * b.g * ufl.TestFunction(ufl.FunctionSpace(b.mesh, E.P("triangle", 1), label="b")))),
         ("terminal-type", mk(lambda b: ufl.CellVolume(b.mesh) * b.g * b.v)), ("terminal-type", mk(lambda b: ufl.Circumradius(b.mesh) * b.g * b.v)),
         ("terminal-type", mk(lambda b: ufl.CellDiameter(b.mesh) * b.g * b.v)), ("terminal-type", mk(lambda b: ufl.SpatialCoordinate(b.mesh)[0] * b.g * b.v)),
-        ("terminal-type", mk(lambda b: ufl.SpatialCoordinate(b.mesh)[1] * b.g * b.v)), ("terminal-type", mk(lambda b: ufl.CellCoordinate(b.mesh)[0] * b.g * b.v)),
+        ("terminal-type", mk(lambda b: ufl.SpatialCoordinate(b.mesh)[1] * b.g * b.v)), ("terminal-type", mk(lambda b: C.CellCoordinate(b.mesh)[0] * b.g * b.v)),
         ("terminal-type", mk(lambda b: ufl.Jacobian(b.mesh)[0, 0] * b.g * b.v)), ("terminal-type", mk(lambda b: ufl.JacobianInverse(b.mesh)[0, 0] * b.g * b.v)),
         ("terminal-type", mk(lambda b: ufl.JacobianDeterminant(b.mesh) * b.g * b.v)), ("terminal-type", mk(lambda b: ufl.Identity(2)[0, 0] * b.g * b.v + b.f * b.v)),
         ("terminal-type", mk(lambda b: ufl.PermutationSymbol(2)[0, 1] * b.g * b.v + b.f * b.v)),
@@ -786,8 +804,8 @@ def battery_case(ctx, gi):
 
 
 def case(ctx, i, rng):
-    if i < NBATTERY:
-        battery_case(ctx, i)
+    if i % BATTERY_STRIDE == 0 and i // BATTERY_STRIDE < NBATTERY:
+        battery_case(ctx, i // BATTERY_STRIDE)
     else:
         random_case(ctx, i, rng)
 
@@ -820,7 +838,8 @@ def _report_buckets(ctx, merged, nworkers):
             ctx.count("bucket_collisions_between_variants_of_one_base")
         else:
             ctx.count("bucket_collisions_across_cases")
-        ctx.violation(
+        report(
+            ctx,
             "C11/bucket-collision/" + "~".join(kinds),
             f"{len(entries)} forms with different canons share signature {sig}",
             {"signature": sig, "members": [[str(e[0]), e[1]] for e in entries.values()][:8]},
